@@ -212,11 +212,13 @@ package domain
 //@ func (i *Iterator) SeekLE(ctx context.Context, stamp telem.TimeStamp) (ok bool)
 //@   requires SpecIterWF(i) && stamp >= 0 && (i.closed ==> !i.valid)
 //@   ensures  SpecIterOK(i) && ok == i.valid
+//@   ensures  !ok ==> i.currPtr == old(i.currPtr)
 //@   ensures  ok ==> i.currPtr.Start <= stamp && (forall k int :: i.position < k && k < len(i.idx.mu.pointers) ==> stamp < i.idx.mu.pointers[k].Start)
 //@   modifies &i.valid, &i.currPtr, &i.position
 //@ func (i *Iterator) SeekGE(ctx context.Context, stamp telem.TimeStamp) (ok bool)
 //@   requires SpecIterWF(i) && stamp >= 0 && (i.closed ==> !i.valid)
 //@   ensures  SpecIterOK(i) && ok == i.valid
+//@   ensures  !ok ==> i.currPtr == old(i.currPtr)
 //@   ensures  ok ==> stamp < i.currPtr.End && (forall k int :: 0 <= k && k < i.position ==> i.idx.mu.pointers[k].End <= stamp)
 //@   # it fails only if the first domain ending after stamp (if any) lies outside the bounds
 //@   ensures  !ok && !i.closed ==> (forall k int :: 0 <= k && k < len(i.idx.mu.pointers) && stamp < i.idx.mu.pointers[k].End && (forall m int :: 0 <= m && m < k ==> i.idx.mu.pointers[m].End <= stamp) ==> !telem.SpecOvl(i.idx.mu.pointers[k].TimeRange, i.Bounds))
@@ -238,9 +240,20 @@ package domain
 //@ func (i *Iterator) SeekFirst(ctx context.Context) (ok bool)
 //@   requires SpecIterWF(i) && i.Bounds.Start >= 0 && (i.closed ==> !i.valid)
 //@   ensures  SpecIterOK(i) && ok == i.valid
+//@   ensures  !ok ==> i.currPtr == old(i.currPtr)
 //@   ensures  ok ==> i.Bounds.Start < i.currPtr.End && (forall k int :: 0 <= k && k < i.position ==> i.idx.mu.pointers[k].End <= i.Bounds.Start)
 //@   ensures  !ok && !i.closed ==> (forall k int :: 0 <= k && k < len(i.idx.mu.pointers) && i.Bounds.Start < i.idx.mu.pointers[k].End && (forall m int :: 0 <= m && m < k ==> i.idx.mu.pointers[m].End <= i.Bounds.Start) ==> !telem.SpecOvl(i.idx.mu.pointers[k].TimeRange, i.Bounds))
 //@   modifies &i.valid, &i.currPtr, &i.position
+//@ # SeekLast: the last domain that starts before the end of the bounds (SeekLE of Bounds.End-1)
+//@ func (i *Iterator) SeekLast(ctx context.Context) (ok bool)
+//@   requires SpecIterWF(i) && i.Bounds.End >= 1 && (i.closed ==> !i.valid)
+//@   ensures  SpecIterOK(i) && ok == i.valid
+//@   ensures  !ok ==> i.currPtr == old(i.currPtr)
+//@   ensures  ok ==> i.currPtr.Start < i.Bounds.End && (forall k int :: i.position < k && k < len(i.idx.mu.pointers) ==> i.Bounds.End <= i.idx.mu.pointers[k].Start)
+//@   modifies &i.valid, &i.currPtr, &i.position
+//@ func (i *Iterator) SetBounds(bounds telem.TimeRange)
+//@   ensures  i.Bounds == bounds && !i.valid && i.idx == old(i.idx) && i.position == old(i.position) && i.currPtr == old(i.currPtr) && i.closed == old(i.closed)
+//@   modifies i
 //@ pure func (i *Iterator) Position() uint32
 //@ inline func (i *Iterator) Size() telem.Size
 //@ trusted func (i *Iterator) OpenReader(ctx context.Context) (r *Reader, err error)
